@@ -582,7 +582,10 @@ theorem bfix_case_not_caseOnly_for_all_actions :
     word exceptions), EVERY region and the action the analysis of that region produces, the fix is
     case-only: it keeps the token count, every class, the code sequence and every comment, and the
     changed value has the same length.  Hypotheses: the character tables (`CharWise`, discharged for
-    ASCII below) and `TokOk` for the analysed token — a code token, NOT AN EXTENDED IDENTIFIER. -/
+    ASCII below) and `TokOk` for the analysed token — a code token (and, for the two rules named
+    `bit_string_literal`, a bit-string token).  EXTENDED IDENTIFIERS ARE NO LONGER EXCLUDED: since the
+    repair of `does_not_contain_any_alpha_characters` the analysis skips them
+    (`bfull_case_extended_identifier_untouched`). -/
 theorem bfull_case_caseOnly {E : Case.Env} {fold : Str → Str} {lc uc fc : Char → Char}
     (T : CharWise E fold lc uc fc) (owner : String) (ho : owner ∈ Base.caseTokenOwners)
     (params : Base.KV) (p : Params) (old new : List Tok) (a : Action)
@@ -606,8 +609,9 @@ theorem bfull_case_caseOnly_ascii (fm : String → Str → Bool) (owner : String
     CaseOnly asciiLowerS old new :=
   (bfull_case_caseOnly (ascii_charWise fm) owner ho params p old new a hok ha hf).1
 
-/-- string and character literals never reach the fix: a value that starts with `"` or `'` is
-    skipped by the analysis of every rule that is not named `bit_string_literal` (commit da18b98) -/
+/-- string literals, character literals and extended identifiers never reach the fix: a value that
+    starts with `"`, `'` or a backslash is skipped by the analysis of every rule that is not named
+    `bit_string_literal` (commit da18b98 and the extended-identifier repair) -/
 theorem bfull_case_literal_skipped (E : Case.Env) (p : Params) (l : List Tok) (t : Tok)
     (hn : p.name ≠ bitStringLiteral) (h0 : l[0]? = some t) (hq : doesNotContainAnyAlpha t.val = true) :
     TokenCase.analyzeToi E p l = .ok none := by
@@ -623,17 +627,56 @@ theorem bfull_case_literal_skipped (E : Case.Env) (p : Params) (l : List Tok) (t
   simp only [hg, bind, Except.bind]
   exact check_skip (by simp [hn, hq])
 
-/-- EXCLUDED CASE of `TokOk`, proved on the model: an extended identifier IS rewritten
-    (`\Ab\` → `\ab\` under the default `case: lower`), which is not a case-only change
-    because extended identifiers compare exactly.  Reproduced on the real code. -/
-theorem bfull_case_extended_identifier_changed :
-    ∃ (p : Params) (old new : List Tok) (a : Action),
-      TokenCase.analyzeToi (asciiEnv fun _ _ => false) p old = .ok (some a) ∧
-      Base.fixByOwner "vsg.rules.token_case.token_case" [] (Base.caseActionKV a) old = some (.ok new) ∧
-      ¬ CaseOnly asciiLowerS old new :=
-  ⟨{ name := "signal".toList, style := .lower, prefixes := [], suffixes := [], exceptions := [] },
-    [⟨0, .code, "\\Ab\\".toList⟩], [⟨0, .code, "\\ab\\".toList⟩],
-    { value := some "\\ab\\".toList, index := 0 }, by decide +kernel, by decide +kernel, by decide +kernel⟩
+/-- the values the case rules skip are exactly the values property C01 compares exactly
+    (string literal, character literal, extended identifier) -/
+theorem bfull_case_skip_iff_exact (v : Str) : doesNotContainAnyAlpha v = isExact v :=
+  (isExact_eq_skip v).symm
+
+/-- FORMER EXCLUDED CASE of `TokOk`, now a theorem: an EXTENDED IDENTIFIER IS LEFT ALONE by every
+    analysis of the family, for every interpreter environment, every case style and every exception
+    list — `token_case` (every rule not named `bit_string_literal`) reports nothing for the region,
+    and neither value choice of the three `consistent_*` base classes proposes a spelling.
+    (Before the repair: `\Ab\` → `\ab\` under the default `case: lower`; reproduced on the real code
+    then, absent on the repaired code.) -/
+theorem bfull_case_extended_identifier_untouched (E : Case.Env) (p : Params) (l : List Tok) (t : Tok)
+    (hn : p.name ≠ bitStringLiteral) (h0 : l[0]? = some t) (hb : t.val.head? = some '\\') :
+    TokenCase.analyzeToi E p l = .ok none ∧
+      ∀ ids, Consistent.expectedFirst E ids t.val = none ∧ Consistent.expectedMap E ids t.val = .ok none :=
+  ⟨bfull_case_literal_skipped E p l t hn h0 (skip_of_backslash hb),
+    fun _ => ⟨Consistent.expectedFirst_skip (skip_of_backslash hb), Consistent.expectedMap_skip (skip_of_backslash hb)⟩⟩
+
+/-- … and the formal-part rules (port_map_002, generic_map_002): every action the analysis of a region
+    produces points at a formal-part token that is not an extended identifier (nor a literal) -/
+theorem bfull_case_formal_extended_untouched {E : Case.Env} {fold : Str → Str} {lc uc fc : Char → Char}
+    (T : CharWise E fold lc uc fc) (c : FormalPart.Classes) (p : Params) (l : List Tok)
+    (acts : List Action) (a : Action) (hn : p.name ≠ bitStringLiteral) (hnd : NoCaseDup E p.exceptions)
+    (ha : FormalPart.analyzeToi E c p l = .ok acts) (hm : a ∈ acts) :
+    ∃ (j : Nat) (t : Tok), a.index = (j : Int) ∧ l[j]? = some t ∧ t.cls = c.formal ∧
+      t.val.head? ≠ some '\\' ∧ isExact t.val = false := by
+  unfold FormalPart.analyzeToi at ha
+  rcases FormalPart.scan_spec c p _ _ l 0 false false [] acts [] rfl ha a hm with h | ⟨j, t, hj, hcls, hchk⟩
+  · cases h
+  · simp only [List.nil_append] at hj
+    have hs := check_not_skipped hchk
+    have hd : doesNotContainAnyAlpha t.val = false := by
+      cases hd : doesNotContainAnyAlpha t.val with
+      | false => rfl
+      | true =>
+        rw [hd, Bool.and_true] at hs
+        exact absurd (by simpa using hs) hn
+    exact ⟨j, t, check_index T hnd hchk, hj, hcls, not_backslash_of_not_skip hd, by rw [isExact_eq_skip, hd]⟩
+
+/-- the former witness, on the repaired model: `\Ab\` under the default `case: lower` is not reported,
+    while the plain identifier `Ab` still is -/
+theorem bfull_case_extended_identifier_witness :
+    let p : Params := { name := "signal".toList, style := .lower, prefixes := [], suffixes := [], exceptions := [] }
+    TokenCase.analyzeToi (asciiEnv fun _ _ => false) p [⟨0, .code, "\\Ab\\".toList⟩] = .ok none ∧
+    TokenCase.analyzeToi (asciiEnv fun _ _ => false) p [⟨0, .code, "Ab".toList⟩] =
+      .ok (some { value := some "ab".toList, index := 0 }) ∧
+    Consistent.expectedFirst (asciiEnv fun _ _ => false) ["\\Ab\\".toList] "\\ab\\".toList = none ∧
+    Consistent.expectedMap (asciiEnv fun _ _ => false) ["\\Ab\\".toList] "\\ab\\".toList = .ok none ∧
+    Consistent.expectedFirst (asciiEnv fun _ _ => false) ["Ab".toList] "ab".toList = some "Ab".toList := by
+  refine ⟨by decide +kernel, by decide +kernel, by decide +kernel, by decide +kernel, by decide +kernel⟩
 
 /-- B-FULL, formal parts of port / generic maps (2 rules) — PARTIAL: no word twice in different case
     in `case_exceptions` -/
@@ -666,30 +709,32 @@ theorem bfull_case_formal_index_witness :
     { value := some "Clk".toList, index := 0 }, by decide +kernel, by decide +kernel, by decide +kernel⟩
 
 /-- B-FULL (value part), `consistent_token_case` (10 rules): the expected spelling is the first
-    declared identifier that equals the name after `lower()` -/
+    declared identifier that equals the name after `lower()`.  The former hypothesis `t.exact = false`
+    (not a literal, not an extended identifier) is gone: the repaired choice skips such names. -/
 theorem bfull_case_consistent_caseOnly {E : Case.Env} {fold : Str → Str} {lc uc fc : Char → Char}
     (T : CharWise E fold lc uc fc) (owner : String) (ho : owner ∈ Base.caseConsistentOwners)
     (params : Base.KV) (ids : List Str) (old new : List Tok) (t : Tok) (e : Str)
-    (h0 : old[0]? = some t) (hc : t.isCode = true) (hx : t.exact = false)
+    (h0 : old[0]? = some t) (hc : t.isCode = true)
     (he : Consistent.expectedFirst E ids t.val = some e)
     (hf : Base.fixByOwner owner params (Base.consistentActionKV "expected" e) old = some (.ok new)) :
     CaseOnly fold old new := by
   rw [Base.fixByOwner_consistent owner ho] at hf
   simp only [Option.some.injEq] at hf
-  exact Consistent.first_fix_caseOnly T ids old new t e h0 hc hx he hf
+  exact Consistent.first_fix_caseOnly T ids old new t e h0 hc he hf
 
 /-- B-FULL (value part), `consistent_interface_token_case` / `consistent_subprogram_parameter_token_case`
-    (4 rules): the expected spelling is the last declared name that equals the token after `lower()` -/
+    (4 rules): the expected spelling is the last declared name that equals the token after `lower()`
+    (no hypothesis about literals / extended identifiers any more: `interface_case_mismatch` skips them) -/
 theorem bfull_case_interface_caseOnly {E : Case.Env} {fold : Str → Str} {lc uc fc : Char → Char}
     (T : CharWise E fold lc uc fc) (owner : String) (ho : owner ∈ Base.caseInterfaceOwners)
     (params : Base.KV) (ids : List Str) (old new : List Tok) (t : Tok) (e : Str)
-    (h0 : old[0]? = some t) (hc : t.isCode = true) (hx : t.exact = false)
+    (h0 : old[0]? = some t) (hc : t.isCode = true)
     (he : Consistent.expectedMap E ids t.val = .ok (some e))
     (hf : Base.fixByOwner owner params (Base.consistentActionKV "value" e) old = some (.ok new)) :
     CaseOnly fold old new := by
   rw [Base.fixByOwner_interface owner ho] at hf
   simp only [Option.some.injEq] at hf
-  exact Consistent.map_fix_caseOnly T ids old new t e h0 hc hx he hf
+  exact Consistent.map_fix_caseOnly T ids old new t e h0 hc he hf
 
 /-- the table hypotheses are satisfiable: ASCII -/
 theorem case_tables_ascii (fm : String → Str → Bool) :
@@ -742,10 +787,24 @@ example : ∃ r ∈ Gen.caseRuleTable, r.name = "bit_string_literal" := by decid
 example : ∃ (p : Base.Case.Params) (old new : List Tok) (a : Base.Case.Action),
     Base.Case.TokenCase.analyzeToi (Base.Case.asciiEnv fun _ _ => false) p old = .ok (some a) ∧
     Base.fixByOwner "vsg.rules.token_case.token_case" [] (Base.caseActionKV a) old = some (.ok new) ∧
-    new ≠ old ∧ (∀ t, old[0]? = some t → t.isCode = true ∧ t.val.head? ≠ some '\\') :=
+    new ≠ old ∧ (∀ t, old[0]? = some t → Base.Case.TokOk p t) :=
   ⟨{ name := "signal".toList, style := .upper, prefixes := ["a".toList], suffixes := [], exceptions := [] },
     [⟨0, .code, "Abc".toList⟩], [⟨0, .code, "aBC".toList⟩], { value := some "aBC".toList, index := 0 },
-    by decide +kernel, by decide +kernel, by decide +kernel, by decide +kernel⟩
+    by decide +kernel, by decide +kernel, by decide +kernel,
+    fun t ht => by
+      simp only [List.getElem?_cons_zero, Option.some.injEq] at ht
+      subst ht
+      exact ⟨by decide, fun h => absurd h (by decide)⟩⟩
+/-- the hypotheses of `bfull_case_extended_identifier_untouched` are satisfiable -/
+example : ∃ (p : Base.Case.Params) (l : List Tok) (t : Tok), p.name ≠ Base.Case.bitStringLiteral ∧
+    l[0]? = some t ∧ t.val.head? = some '\\' :=
+  ⟨{ name := "signal".toList, style := .lower, prefixes := [], suffixes := [], exceptions := [] },
+    [⟨0, .code, "\\Clk_In\\".toList⟩], ⟨0, .code, "\\Clk_In\\".toList⟩, by decide, rfl, rfl⟩
+/-- … and of the consistent_* theorems (no exactness hypothesis any more): `CLK` against the declared `Clk` -/
+example : Base.Case.Consistent.expectedFirst (Base.Case.asciiEnv fun _ _ => false) ["Clk".toList] "CLK".toList
+    = some "Clk".toList ∧
+    Base.Case.Consistent.expectedMap (Base.Case.asciiEnv fun _ _ => false) ["Clk".toList] "CLK".toList
+    = .ok (some "Clk".toList) := ⟨by decide +kernel, by decide +kernel⟩
 /-! ### END ag_bcase -/
 
 /-! ### BEGIN ag_bstruct (insert / remove / parens / split / multiline alignment) -/
